@@ -247,8 +247,53 @@ def shard(ctx, acc):
     # look like generated ones): names must not influence the inference
     strat = st.one_of(gen_typed.script(), gen_typed.script(dict(trap_names=True)))
     runner.hyp_run(ctx, strat, body, ctx.share(total))
+    table_runs(ctx, acc, dd)
     if not ctx.quick and ctx.shard == 0:
         soundness_sample(ctx, acc)
+
+
+def table_runs(ctx, acc, dd):
+    """Real sequential ddmin / hybrid runs in which accepted steps rename symbols and change
+    declared widths: whenever proposals are generated for an input, get_sort / get_bv_width must
+    answer for that input - the same as after collecting the tables from it afresh (whose
+    answers the in-process part compares with the ground truth)."""
+    import os
+    from vlib import e2e
+    from vlib import spec as vspec
+    opt = {}
+    for theory, (mod, ms) in dd.mutators.get_all_mutators().items():
+        opt.update(ms)
+    argv = ['--disable-all'] + ['--' + opt[c] for c in ('SimplifySymbolNames', 'ArithmeticSimplifyConstant', 'BVReduceBW', 'EraseNode',
+                                                        'ReplaceByVariable', 'SimplifyQuotedSymbols', 'Constants') if c in opt]
+    n = [0]
+
+    def body(arg):
+        s, strategy, salt = arg
+        n[0] += 1
+        text = model.render_list(s.cmds) + '\n'
+        k0 = vspec.mix(vspec.token_hash(vspec.tokens_of_text(text)), salt) % 3
+        spec = dict(pred=['hash', salt, 3, [k0, (k0 + 1) % 3]], T=[0, 'sat\n', ''], F=[1, 'unsat\n', ''], noise=None, delay=None,
+                    fault=None, directive=False)
+        case = dict(kind='table-run', text=text, spec=spec, strategy=strategy)
+        check_table_run(case, acc, os.path.join(ctx.workdir, f'run{n[0] % 3}'), argv)
+
+    strat = st.tuples(gen_typed.script(dict(depth=2, max_asserts=3)), st.sampled_from(['ddmin', 'hybrid']), st.integers(0, 10**6))
+    runner.hyp_run(ctx, strat, body, ctx.share(64 if ctx.quick else 2000), salt=47)
+
+
+def check_table_run(case, acc, wd, argv):
+    from vlib import e2e
+    r = e2e.run_ddsmt(wd, case['text'], case['spec'], dict(strategy=case['strategy'], jobs=1, timeout=20, extra_argv=argv),
+                      mode='launcher', plan=dict(check_tables=True, stop_on_repeat=True, max_accepts=80), wall_limit=120)
+    if r.timed_out or r.after is None:
+        acc.skip('table-run: wall limit or launcher crash')
+        return
+    for a in r.after.get('stale_answers', [])[:2]:
+        acc.violation('run/stale-sort-or-width',
+                      f'in a real run ({case["strategy"]}, -j 1), when proposals of {a["mutator"]} were generated, get_sort({a["term"]}) '
+                      f'answered {a["sort"]} / width {a["width"]}; for the input at hand the answer is {a["fresh_sort"]} / {a["fresh_width"]}', case)
+    acc.add_extra('table_checks_in_runs', r.after.get('table_checks', 0))
+    acc.case(dict(text=case['text'], kind='table-run'), nontrivial=False, classes=['table-run', f'table-run-{case["strategy"]}'])
 
 
 def soundness_sample(ctx, acc):
@@ -274,4 +319,12 @@ def soundness_sample(ctx, acc):
 def replay(case, acc, ctx):
     dd = env.load()
     env.set_options(dd, ['in.smt2', 'out.smt2', '/bin/true'])
+    if case.get('kind') == 'table-run':
+        import os
+        opt = {}
+        for theory, (mod, ms) in dd.mutators.get_all_mutators().items():
+            opt.update(ms)
+        argv = ['--disable-all'] + ['--' + opt[c] for c in ('SimplifySymbolNames', 'ArithmeticSimplifyConstant', 'BVReduceBW', 'EraseNode',
+                                                            'ReplaceByVariable', 'SimplifyQuotedSymbols', 'Constants') if c in opt]
+        return check_table_run(case, acc, os.path.join(ctx.workdir, 'replay'), argv)
     check_script(dd, case, acc)  # fresh instances, warmed with case['history']
